@@ -28,6 +28,13 @@ def call_kernel_replay(func, args):
 
 
 def run_spec(spec):
+    if spec.get("kind", "ch") == "points":
+        # several concrete points of one harness: result of the first point that violates
+        for args in spec["args_list"]:
+            r = call_harness(spec["harness"], args)
+            if r:
+                return {"failing_args": args, "result": r}
+        return ""
     if spec.get("kind", "ch") == "ch":
         return call_harness(spec["harness"], spec["args"])
     return call_kernel_replay(spec["func"], spec["args"])
